@@ -1,5 +1,7 @@
 #[cfg(test)]
 mod tests;
+#[cfg(feature = "verif")]
+pub mod verif_hooks;
 
 use std::{
     future::Future,
@@ -1566,6 +1568,8 @@ impl<T: Transport, Env: UtpEnvironment> VirtualSocket<T, Env> {
 impl<T, E> Drop for VirtualSocket<T, E> {
     fn drop(&mut self) {
         METRICS.live_virtual_sockets.decrement(1);
+        #[cfg(feature = "verif")]
+        crate::verif::vsock_dropped(self.remote, self.conn_id_send.0);
         self.user_tx.mark_vsock_closed();
         self.user_rx.mark_vsock_closed();
     }
@@ -1785,6 +1789,8 @@ impl<T: Transport, E: UtpEnvironment> UtpStreamStarter<T, E> {
         };
 
         METRICS.live_virtual_sockets.increment(1);
+        #[cfg(feature = "verif")]
+        crate::verif::vsock_created(vsock.remote, vsock.conn_id_send.0);
 
         let stream = UtpStream::new(read_half, write_half, vsock.remote);
         UtpStreamStarter {
